@@ -266,9 +266,41 @@ def run(ctx):
             ctx.known_lines.append("KNOWN-FINDING: property=C12 %s %s" % (kid, k["what"]))
         elif got == sorted(w["expected_rows"]):
             ctx.notes.append("%s: witness no longer fails (defect appears repaired; update KNOWN_FINDINGS.json)" % kid)
+    # ---- one pattern text read by several operators in ONE query: each operator keeps its own reading ----
+    combos = []
+    sample = [kp for kp in pats if kp[0] in ("glob", "like", "rx")]
+    rng.shuffle(sample)
+    for kind, ptxt in sample[: (60 if ctx.tier == "quick" else 1500)]:
+        ops3 = rng.sample(["=", "like", "=~", "!=", "not like", "!=~", "==="], 2)
+        conn = rng.choice(["or", "and"])
+        combos.append((ptxt, ops3, conn))
+
+    def combo_one(c):
+        ptxt, ops3, conn = c
+        singles = []
+        for op in ops3:
+            rows, r = qlib.select(ctx.impl, "name", "from m where name %s %s" % (op, qlib.quote(ptxt)), cwd=ctx.scratch)
+            singles.append(None if rows is None or r["status"] != 0 else {x[0] for x in rows})
+        rows, r = qlib.select(ctx.impl, "name", "from m where name %s %s %s name %s %s" % (ops3[0], qlib.quote(ptxt), conn, ops3[1], qlib.quote(ptxt)), cwd=ctx.scratch)
+        return c, singles, rows, r
+
+    for (ptxt, ops3, conn), singles, rows, r in pmap(combo_one, combos):
+        if any(s_ is None for s_ in singles):
+            st["hist"]["combo_skipped_invalid_for_an_operator"] += 1
+            continue
+        st["evaluations"] += 1
+        case = {"names": names, "pattern": ptxt, "query": r["query"]}
+        exp = (singles[0] | singles[1]) if conn == "or" else (singles[0] & singles[1])
+        if rows is None or r["status"] != 0:
+            ctx.violation("impl-violates-spec", "combined query failed: status %s, stderr %r" % (r["status"], r["stderr"][:200]), input=case)
+        elif {x[0] for x in rows} != exp:
+            ctx.violation("impl-violates-spec", "`%s P %s %s P` is not the %s of the two single-operator results for P = %r" % (ops3[0], conn, ops3[1], "union" if conn == "or" else "intersection", ptxt),
+                          input=case, observed=sorted(x[0] for x in rows)[:20], expected=sorted(exp)[:20])
+        else:
+            st["hist"]["combo_ok"] += 1
     ctx.coverage.update(
         evaluations=st["evaluations"], distinct_nontrivial=len(st["distinct"]), traces_validated_against_impl=st["agreed"],
-        rule="%d file names over letters of both cases, digits, space and the regex metacharacters %r; patterns derived from the names (substring -> wildcard, one char -> single wildcard, case flips, edits, inserted metacharacters) for glob (= / !=), LIKE (like / notlike), regex (=~ / !=~) and exact (=== / !==); the real binary's rows are compared with (a) the textbook verdict (glob_spec / like_spec / equality evaluated in Coq) and (b) the faithful model (generated tables + regex engine); negatives must be exact complements. non-trivial = a pattern selecting a proper non-empty subset" % (len(names), META),
+        rule="(plus: one pattern text read by two different operators in one query, joined by and/or, must give the intersection/union of the single-operator results) %d file names over letters of both cases, digits, space and the regex metacharacters %r; patterns derived from the names (substring -> wildcard, one char -> single wildcard, case flips, edits, inserted metacharacters) for glob (= / !=), LIKE (like / notlike), regex (=~ / !=~) and exact (=== / !==); the real binary's rows are compared with (a) the textbook verdict (glob_spec / like_spec / equality evaluated in Coq) and (b) the faithful model (generated tables + regex engine); negatives must be exact complements. non-trivial = a pattern selecting a proper non-empty subset" % (len(names), META),
         samples=st["samples"], distribution=dict(st["hist"]))
     return ctx.finish(trusted=[
         "regex crate semantics are modelled by lib/Regex.v + lib/RegexParse.v on an ASCII subset ((?i) = ASCII case folding; Unicode simple case folding of the real crate is outside the model and outside the generated alphabet)",
